@@ -453,23 +453,23 @@ def known_match(prop, viol, known):
 
 PROPS = {
     # chk: numbers of the extracted checkers evaluated on implementation traces
-    "C01": dict(chk=[1], n=(500, 4000), tiny=(12, 60)),
-    "C02": dict(chk=[2], n=(500, 4000), tiny=(8, 40)),
-    "C03": dict(chk=[3], n=(500, 4000), tiny=(10, 50)),
-    "C04": dict(chk=[4, 2], n=(500, 4000), tiny=(10, 50)),
-    "C05": dict(chk=[5], n=(500, 4000), tiny=(8, 40)),
-    "C06": dict(chk=[6, 8], n=(500, 4000), tiny=(12, 60)),
-    "C07": dict(chk=[7], n=(500, 4000), tiny=(14, 70)),
-    "C08": dict(chk=[8], n=(500, 4000), tiny=(10, 50)),
-    "C09": dict(chk=[5], n=(500, 4000), tiny=(12, 60), progress=True),
-    "C10": dict(chk=[10], n=(500, 4000), tiny=(6, 30)),
-    "C11": dict(chk=[11], n=(500, 4000), tiny=(10, 50)),
+    "C01": dict(chk=[1], n=(800, 5000), tiny=(12, 60)),
+    "C02": dict(chk=[2], n=(800, 5000), tiny=(8, 40)),
+    "C03": dict(chk=[3], n=(800, 5000), tiny=(10, 50)),
+    "C04": dict(chk=[4, 2], n=(800, 5000), tiny=(10, 50)),
+    "C05": dict(chk=[5], n=(800, 5000), tiny=(8, 40)),
+    "C06": dict(chk=[6, 8], n=(800, 5000), tiny=(12, 60)),
+    "C07": dict(chk=[7], n=(800, 5000), tiny=(14, 70)),
+    "C08": dict(chk=[8], n=(800, 5000), tiny=(10, 50)),
+    "C09": dict(chk=[5], n=(800, 5000), tiny=(12, 60), progress=True),
+    "C10": dict(chk=[10, 2], n=(800, 5000), tiny=(6, 30)),
+    "C11": dict(chk=[11], n=(800, 5000), tiny=(10, 50)),
     "C12": dict(chk=[12], n=(400, 3000), tiny=(8, 30), progress=True),
     "C13": dict(chk=[1, 2, 3, 5, 6, 8], n=(400, 3000), tiny=(0, 10)),
     "C15": dict(chk=[8], n=(300, 2000), tiny=(0, 10)),
     "C16": dict(chk=[16], n=(600, 6000), tiny=(0, 0), modes=["wrapping", "checked"]),
     "C17": dict(chk=[17, 8, 2, 3], n=(300, 2500), tiny=(0, 10), modes=["wrapping", "checked"]),
-    "C18": dict(chk=[8, 2, 1], n=(500, 4000), tiny=(0, 10), progress=True),
+    "C18": dict(chk=[8, 2, 1], n=(800, 5000), tiny=(0, 10), progress=True),
     "C19": dict(chk=[2, 8, 5], n=(300, 2000), tiny=(6, 30)),
 }
 
